@@ -226,6 +226,72 @@ func genCase(unpriv bool) func(t *rapid.T) Case {
 	}
 }
 
+// ---------------------------------------------------------------------------
+// wide trees: more files than the process may hold open at a time (the job
+// runs with a low RLIMIT_NOFILE), so that a descriptor kept per entry runs out
+
+type WideCase struct {
+	Dirs  int  `json:"dirs"`
+	Files int  `json:"files"`
+	Deref bool `json:"deref"`
+}
+
+var subWide = ev.Register("manyfiles", func(c WideCase) error {
+	r, cleanup := fsx.Scratch("c02w-")
+	defer cleanup()
+	src, dst := filepath.Join(r, "src"), filepath.Join(r, "dst")
+	var tree fsx.Tree
+	for i := 0; i < c.Files; i++ {
+		d := fmt.Sprintf("d%02d", i%c.Dirs)
+		tree = append(tree, fsx.Node{Path: fmt.Sprintf("%s/f%03d.txt", d, i), Kind: "file", Content: fmt.Sprintf("IN:%d", i), Mode: 0644, Sec: 1500000000 + int64(i)})
+		if i%7 == 3 {
+			tree = append(tree, fsx.Node{Path: fmt.Sprintf("%s/l%03d", d, i), Kind: "symlink", Target: fmt.Sprintf("f%03d.txt", i)})
+		}
+	}
+	if err := fsx.Materialise(src, tree, nil); err != nil {
+		return fmt.Errorf("harness: materialise: %v", err)
+	}
+	os.Mkdir(dst, 0755)
+	ev.NonTrivialKey(fmt.Sprintf("wide:%d:%d:%v", c.Dirs, c.Files, c.Deref), "more-files-than-descriptors")
+	data, _, perr, panicked := pk.PackBytes(pk.Opts{Deref: c.Deref}, nil, src)
+	if panicked != nil {
+		return fmt.Errorf("Pack panicked: %v", panicked)
+	}
+	if perr != nil {
+		return fmt.Errorf("Pack of %d files in %d directories failed: %v", c.Files, c.Dirs, perr)
+	}
+	uerr, panicked := pk.Unpack(pk.Opts{}, nil, data, dst)
+	if panicked != nil {
+		return fmt.Errorf("Unpack panicked: %v", panicked)
+	}
+	if uerr != nil {
+		return fmt.Errorf("Unpack of the slug Pack produced from %d files failed: %v", c.Files, uerr)
+	}
+	before, err := fsx.Snapshot(src, nil)
+	if err != nil {
+		return fmt.Errorf("harness: %v", err)
+	}
+	after, err := fsx.Snapshot(dst, nil)
+	if err != nil {
+		return fmt.Errorf("harness: %v", err)
+	}
+	delete(before, ".")
+	delete(after, ".")
+	if d := fsx.Diff(before, after, "mode size target sum"); len(d) > 0 {
+		if len(d) > 5 {
+			d = d[:5]
+		}
+		return fmt.Errorf("round trip of %d files differs: %s", c.Files, strings.Join(d, "; "))
+	}
+	return nil
+})
+
+func TestPropManyFiles(t *testing.T) {
+	ev.Check(t, subWide, func(t *rapid.T) WideCase {
+		return WideCase{Dirs: rapid.IntRange(1, 6).Draw(t, "dirs"), Files: rapid.IntRange(90, 260).Draw(t, "files"), Deref: rapid.Bool().Draw(t, "deref")}
+	})
+}
+
 func TestPropRoundTrip(t *testing.T) {
 	ev.Check(t, subRound, genCase(os.Getenv("VERIF_DROP_UID") != "" && os.Getuid() != 0))
 }
